@@ -50,6 +50,12 @@ def plan(ctx):
         obs.append(Obligation(f"sized_any.{fn}", "xh", "c03", "sized_any", param={"fn": fn}, timeout=T,
                               bounds="first argument: list abstracted to its LENGTH, 9996..10001 (symbolic); then an optional index (-1..1 from either end) and 0..4 further int arguments (surplus / rarely used argument forms)",
                               desc=f"FUNCTIONS[{fn!r}](list, ...): the list never ends above the cap, a full list never grows"))
+    obs.append(Obligation("pair_growth", "xh", "c03", "pair_growth", timeout=T * 6,
+                          bounds="every builtin (index symbolic) applied to two real dicts / two real lists / three real dicts with disjoint keys, sizes from {0, 1, 6000, 9999, 10000} (finite domain; bodies run natively)",
+                          desc="multi-argument forms: no result and no argument ends longer than max(10000, the arguments)"))
+    obs.append(Obligation("history_cap", "xh", "c03", "history_cap", timeout=T * 6,
+                          bounds="first eval: 6 programs (succeeding / failing) over host containers of 0 / 10000 / 10001 / 25000 elements; second eval: 6 element-adding programs on full containers; same or another parser (finite domain; bodies run natively)",
+                          desc="the cap enforced by an evaluation does not depend on what earlier evaluations saw or how they ended"))
     for key, text, lit in SMALL:
         obs.append(Obligation(f"growth.small.{key}", "xh", "c03", "growth_small", param={"text": text, "lit": lit}, timeout=T * 2,
                               bounds="host lists a, b and string s of length <= 3 (symbolic contents), k in -3..3",
